@@ -897,8 +897,8 @@ func (g *g17) ref() map[string]any {
 
 // pure additionalProperties sub-schema: references only along the additionalProperties chain
 func (g *g17) addlSchema(depth int) any {
-	if !g.clean && !g.noRef && len(g.defs) > 0 && g.r.Chance(35) {
-		return g.ref()
+	if !g.noRef && len(g.defs) > 0 && g.r.Chance(35) {
+		return g.ref() // rewritten in both directions since dfc5235
 	}
 	if !g.clean && g.r.Chance(g.addlBad) {
 		// not completely converted by convertRefsInV3SchemaRef (class AddlSubschemaUnconverted)
@@ -976,7 +976,7 @@ func (g *g17) schema(depth int, density int) map[string]any {
 					m["required"] = req
 				}
 			}
-			if !g.clean && g.r.Chance(10) {
+			if g.r.Chance(10) { // copied back since e0e4b64
 				ks := c17_sortedKeys(props)
 				m["discriminator"] = ks[0]
 				pm := c17_jmap(props[ks[0]])
@@ -1034,12 +1034,13 @@ func (g *g17) defSchema(depth, density int, cyclic bool) map[string]any {
 	if g.r.Chance(30) {
 		m["required"] = []any{c17_sortedKeys(props)[0]}
 	}
-	if g.clean {
-		if g.r.Chance(20) {
-			m["additionalProperties"] = g.r.Bool()
-		}
-	} else if g.r.Chance(25) {
-		m["additionalProperties"] = g.ref()
+	switch {
+	case g.r.Chance(25):
+		m["additionalProperties"] = g.ref() // may be the definition itself: the rewrite on the way back stops at a reference
+	case g.r.Chance(15):
+		m["additionalProperties"] = map[string]any{"type": "object", "additionalProperties": g.ref()}
+	case g.r.Chance(15):
+		m["additionalProperties"] = g.r.Bool()
 	}
 	return m
 }
